@@ -312,6 +312,8 @@ m("C04-r11", "C04", "libwallet/src/internal/selection.rs", "\t\t\tif batch.get(i
 m("C12-r11a", "C12", "libwallet/src/api_impl/owner.rs", "\t\tif !own_invoice {\n\t\t\tlet mut batch = w.batch(keychain_mask)?;\n\t\t\tbatch.delete_private_context(slate.id.as_bytes())?;\n\t\t\tbatch.commit()?;\n\t\t}\n", "\t\tlet _ = own_invoice;\n", "C12.R11")
 m("C12-r11b", "C12", "libwallet/src/api_impl/owner.rs", "\tif slate.state == SlateState::Invoice2 {\n\t\tlet own_invoice", "\tif slate.state == SlateState::Invoice3 {\n\t\tlet own_invoice", "C12.R11")
 
+m("C12-r10ll", "C12", "libwallet/src/api_impl/owner.rs", "\t\tif c.late_lock_args.is_some() {\n\t\t\treturn Err(Error::GenericError(format!(\n\t\t\t\t\"A pending transaction with id {} already exists\",", "\t\tif c.late_lock_args.is_some() && c.amount == 0 {\n\t\t\treturn Err(Error::GenericError(format!(\n\t\t\t\t\"A pending transaction with id {} already exists\",", "C12.R10")
+
 
 def for_property(prop):
     return [x for x in M if x["property"] == prop]
